@@ -55,6 +55,18 @@ class EngineProp(Prop):
                 await loop.settle()
                 script.append(group)
             if case['profile'] == 'loss' and not H.closed_seen:
+                if rng.random() < 0.2:
+                    # the write side breaks first (a send_frame call raises), the read side notices a little later
+                    await H.apply_async({'op': 'wfail'})
+                    script.append([{'op': 'wfail'}])
+                    for pos in range(rng.randint(1, 3)):
+                        group = enginegen.choose_group(rng, H, sh, 'legal', pos)
+                        for s in group:
+                            await H.apply_async(s)
+                        await loop.settle()
+                        enginegen.after_apply(sh, H)
+                        if group:
+                            script.append(group)
                 tail = [[rng.choice([{'op': 'lost', 'mode': 'eof'}, {'op': 'lost', 'mode': 'error'}, {'op': 'close'}])]]
                 # the application's on_close may fail, or be suspended while the application closes the endpoint
                 r = rng.random()
